@@ -261,6 +261,14 @@ def hapFailureIsShaped (ref : Seq) (members : List MemberIn) (haps : List (List 
         okIncorporate ref p.1 q.1.1 q.1.2 (some q.2) != .fail || seqShiftShape p.1 q.1.2
     | none => false
 
+/-- the same for a construction that raised: some (haplotype, leaf of a member it has to be mapped to) pair has the
+    sequential-application shape -/
+def hapRefusalIsShaped (members : List MemberIn) (haps : List (List Edit)) : Bool :=
+  haps.any fun es => (wantMembers members es).any fun j =>
+    match members[j]? with
+    | some m => m.any fun l => seqShiftShape es l.2
+    | none => false
+
 /-! ### VCF records → haplotypes -/
 
 inductive PS where
